@@ -56,6 +56,8 @@ ROOT_TREE = {
     "e\u0301.txt": b"DECOMPOSED E", "\u2126.txt": b"OHM SIGN", "\u03a9.txt": b"GREEK OMEGA", "d\u0301ir": None, "d\u0301ir/index.html": b"DECOMPOSED DIR INDEX",
     # a backslash is an ordinary character of a POSIX file name, not a separator
     "back\\slash.txt": b"BACKSLASH NAME", "dir\\f.txt": b"DIR BACKSLASH F",
+    # pages whose name contains a dot that is neither leading nor the one of ".html"
+    "v1.2.html": b"PAGE V1.2", "john.doe.html": b"PAGE JOHN DOE", "dir/guide.v2.html": b"PAGE GUIDE V2", "archive.tar.html": b"PAGE ARCHIVE TAR",
     # names that already end in .html twice; a directory without an index page but with index.html.html
     "old.html.html": b"OLD HTML HTML", "drafts": None, "drafts/index.html.html": b"DRAFTS INDEX HTML HTML", "drafts/note.html": b"NOTE",
     # something that is neither a regular file nor a directory (a unix socket): not served, not found
@@ -156,6 +158,12 @@ class Sandbox:
         elif spelling == "handle404":
             from baize import wsgi as W0, asgi as A0
             args, kw = (self.root,), None
+        elif spelling == "symlink":
+            # the configured directory is reached through a symbolic link (current -> releases/v1): the tree itself has none
+            link = os.path.join(self.dir, "current")
+            if not os.path.islink(link):
+                os.symlink(self.root, link)
+            args, kw = (link,), {}
         elif spelling == "dotted":
             # the served directory is named relative to a sub-package ("c07outer.inner"); the enclosing package has a directory
             # of the same name
@@ -367,6 +375,8 @@ def all_paths(depth):
                         seen.add(p)
                         yield p
     deep = "/" + LONGDIR + "/" + "M" * 100 + "/" + "N" * 60
+    for p in ("/v1.2", "/john.doe", "/dir/guide.v2", "/archive.tar", "/v1.2.html", "/v1", "/john", "/v1.2/", "/dir/guide"):
+        yield p
     for p in ("/e\u0301.txt", "/\u00e9.txt", "/\u2126.txt", "/\u03a9.txt", "/d\u0301ir/", "/d\u0301ir", "/\u1e0dir/", "/\u212b.txt", "/e\u0301"):
         yield p
     for p in ("/back\\slash.txt", "/dir\\f.txt", "/dir\\index.html", "\\file.txt", "/\\file.txt", "/dir/\\f.txt", "/dir\\", "/..\\secret.txt", "/dir/..\\..\\secret.txt",
@@ -454,7 +464,7 @@ def chain_family(r, tier):
 
 def shards(tier, seed):
     n = 8 if tier == "quick" else 32
-    return [("paths", spelling, k, n) for spelling in ("absolute", "relative", "package", "unicode", "handle404") for k in range(n)] + [("paths", "dotted", k, 2) for k in range(2)] + [("threads", "Files"), ("threads", "Pages"), ("chain",)]
+    return [("paths", spelling, k, n) for spelling in ("absolute", "relative", "package", "unicode", "handle404") for k in range(n)] + [("paths", "dotted", k, 2) for k in range(2)] + [("paths", "symlink", k, 2) for k in range(2)] + [("threads", "Files"), ("threads", "Pages"), ("chain",)]
 
 
 def thread_family(r, kind, tier):
@@ -486,7 +496,7 @@ def run_shard(desc, tier):
         return r
     _, spelling, k, n = desc
     sb = Sandbox()
-    ROOTNAME[0] = "raíz文" if spelling == "unicode" else "root"
+    ROOTNAME[0] = {"unicode": "raíz文", "symlink": "current"}.get(spelling, "root")
     try:
         apps = sb.apps(spelling)
         paths = list(all_paths(DEPTH[tier]))[k::n]
@@ -519,7 +529,7 @@ def replay(w):
         thread_family(r, w["threads"], "quick")
         return bool(r.viol), {"violations": sorted(r.viol), "texts": [v[2][:300] for v in r.viol.values()]}
     sb = Sandbox()
-    ROOTNAME[0] = "raíz文" if w["spelling"] == "unicode" else "root"
+    ROOTNAME[0] = {"unicode": "raíz文", "symlink": "current"}.get(w["spelling"], "root")
     try:
         apps = sb.apps(w["spelling"])
         judge(r, apps, w["spelling"], w["iface"], w["kind"], w["path"], w.get("root", ""))
